@@ -390,8 +390,14 @@ func TestVerif_C16_LocalChannel(t *testing.T) {
 					<-gate // the harness keeps this receiver busy inside its handler
 				}
 			})
+			// the receiver's queue inside the channel (it may be gone already
+			// when a real timeout ran out; it is only used to wait, never to judge)
 			nodes[node].messageHandlersMutex.Lock()
-			r.inbox = nodes[node].messageHandlers[len(nodes[node].messageHandlers)-1].channel
+			for _, h := range nodes[node].messageHandlers {
+				if h.ctx == ctx {
+					r.inbox = h.channel
+				}
+			}
 			nodes[node].messageHandlersMutex.Unlock()
 			hist = append(hist, fmt.Sprintf("recv%d@n%d:%s", r.id, node, kind))
 			return r
